@@ -26,9 +26,13 @@ import random as _pyrandom
 import numpy as np
 
 from ..choice import ChoiceRun, Horizon
-from .surrogates import SeamError, drive, selftest_replay   # noqa: F401
+from .surrogates import (SeamError, drive, selftest_replay, fallthrough,
+                         seeded_state,
+                         unmodelled_snapshot, unmodelled_stats,
+                         unmodelled_names)
 
-__all__ = ["SeamError", "drive", "selftest_replay"]
+__all__ = ["SeamError", "drive", "selftest_replay", "unmodelled_snapshot",
+           "unmodelled_stats", "unmodelled_names"]
 
 REAL_MENU = [0.0, 0.25, 0.5, 0.75, 0.999]
 BITS_M = 8
@@ -42,45 +46,48 @@ BITS_MENU = [int((k + 0.5) * (1 << 32) / BITS_M) for k in range(BITS_M)]
 class KernelRd:
     def __init__(self, cr, seed, E):
         self.cr, self.E = cr, int(E)
-        self._d = _pyrandom.Random(seed)
+        self._d = seeded_state(seed)
 
-    def random(self, *a):
-        if a:
-            raise SeamError("rd.random%r is not modelled" % (a,))
-        d = self._d.random()
+    def random(self, *a, **k):
+        if a or k:
+            return fallthrough("numpy.random", "random_sample", self._d)(
+                *a, **k)
+        d = float(self._d.random_sample())
         c = self.cr.choose(1 + max(self.E, 1), "edge")
         return d if c == 0 else (c - 1 + 0.5) / max(self.E, 1)
 
     def __getattr__(self, name):
-        raise SeamError("core ext rd.%s is not modelled" % name)
+        return fallthrough("numpy.random", name, self._d)
 
 
 def make_randint(cr, seed):
-    d = _pyrandom.Random(seed)
+    d = seeded_state(seed)
 
-    def randint(k, *a):
-        if a:
-            raise SeamError("randint with %d arguments" % (1 + len(a)))
+    def randint(k, *a, **kw):
+        if a or kw:
+            return fallthrough("numpy.random", "randint", d)(k, *a, **kw)
         k = int(k)
         if k <= 0:
             raise ValueError("low >= high")       # what numpy does
-        dv = d.randrange(k)
+        dv = int(d.randint(k))
         c = cr.choose(1 + k, "idx")
         return dv if c == 0 else c - 1
     return randint
 
 
 class NetRandom:
-    def __init__(self, cr, seed):
+    def __init__(self, cr, seed, idx_span=256):
         self.cr = cr
-        self._d = np.random.RandomState(seed)
+        self._d = seeded_state(seed)
+        self.idx_span = idx_span     # widest range answered by "every index"
 
     def uniform(self, low=0.0, high=1.0, size=None):
         if size is not None:
-            raise SeamError("uniform(size=...) is not modelled")
+            return fallthrough("numpy.random", "uniform", self._d)(
+                low, high, size)
         d = float(self._d.uniform(low, high))
         span = high - low
-        if span == int(span) and 1 <= span <= 256:
+        if span == int(span) and 1 <= span <= self.idx_span:
             c = self.cr.choose(1 + int(span), "uidx")
             return d if c == 0 else low + (c - 1) + 0.5
         c = self.cr.choose(1 + len(REAL_MENU), "ureal")
@@ -100,7 +107,7 @@ class NetRandom:
         return flat.reshape(d.shape)
 
     def __getattr__(self, name):
-        raise SeamError("numpy.random.%s is not modelled" % name)
+        return fallthrough("numpy.random", name, self._d)
 
 
 class SafeIgraphRNG:
@@ -140,6 +147,9 @@ class SafeIgraphRNG:
 
     def gauss(self, mu, sigma):
         return self._d.gauss(mu, sigma)
+
+    def __getattr__(self, name):
+        return fallthrough("igraph-rng", name, self._d)
 
 
 class igraph_rng:
@@ -251,6 +261,10 @@ def simple_defect(A, n=None):
     raise AssertionError("simple_defect: vector and loop tests disagree")
 
 
+def n_links_of(A):
+    return int(np.triu(np.asarray(A) != 0, 1).sum())
+
+
 def degrees(A):
     return [int(sum(int(v) for v in row)) for row in np.asarray(A)]
 
@@ -301,14 +315,28 @@ def cross_block(A, L1, L2):
 
 
 def point_sets(n):
-    """Three point sets for n <= 6 nodes: a line with unit spacing (many equal
-    link lengths), a 2x3 lattice (lengths 1, sqrt2, 2, sqrt5), and points in
-    general position (all lengths distinct, gaps > 0.05)."""
+    """Point sets: a line with unit spacing (many equal link lengths), a
+    lattice with 3 columns (lengths 1, sqrt2, 2, sqrt5, ...), points in
+    general position (n <= 6: all lengths distinct, gaps > 0.05), a lattice
+    with 4 columns, n equidistant points on a circle of radius 2 (chord
+    length classes) and lattices numbered boustrophedon-wise (4, 7 columns)."""
     line = [(float(i), 0.0) for i in range(n)]
     lattice = [(float(i % 3), float(i // 3)) for i in range(n)]
     general = [(0.0, 0.0), (1.0, 0.13), (0.31, 1.17), (1.73, 1.41),
                (2.39, 0.29), (0.83, 2.57)][:n]
-    return {"line": line, "lattice": lattice, "general": general}
+    lattice4 = [(float(i % 4), float(i // 4)) for i in range(n)]
+    circle = [(2.0 * math.cos(2 * math.pi * i / n),
+               2.0 * math.sin(2 * math.pi * i / n)) for i in range(n)]
+
+    def snake(cols):
+        # rows alternate in direction, so opposite sides of a lattice cell
+        # are stored (small, large) in opposite geometric orientation
+        return [(float(i % cols if (i // cols) % 2 == 0
+                       else cols - 1 - i % cols), float(i // cols))
+                for i in range(n)]
+    return {"line": line, "lattice": lattice, "general": general,
+            "lattice4": lattice4, "circle": circle, "snake4": snake(4),
+            "snake7": snake(7)}
 
 
 def euclid(points):
